@@ -259,6 +259,27 @@ class Checker(CommandMixin):
                     self.v("C04", "claims-complete", ev, "claiming a free nameplate failed internally: %s %s at %s"
                            % (e.get("type"), e.get("text"), e.get("where")))
             self._track_incarnations(ev.pre, ev.post, ev)
+            # the filler side joined whatever already had one of the names: that is a claim like
+            # any other for the monitors (activity stamp, arrival order of sides)
+            side, app = ev.notes.get("bulk_side"), ev.notes.get("bulk_app")
+            if ev.pre is not None and ev.post is not None and side is not None:
+                self.cur_t = ev.t
+                for n in ev.post.nameplates:
+                    was = ev.pre.np(app, n.name) if n.app == app else None
+                    if was is None:
+                        continue          # (a new nameplate: seeded by _track_incarnations)
+                    in_pre = any(r.side == side for r in was.sides)
+                    in_post = any(r.side == side for r in n.sides)
+                    m0, m1 = ev.pre.mb(app, n.mailbox), ev.post.mb(app, n.mailbox)
+                    stamped = m0 is not None and m1 is not None and m0.updated != m1.updated
+                    if not ((in_post and not in_pre) or (in_post and stamped)):
+                        continue          # the filler did not touch this one
+                    self._attempt((app, n.mailbox), (app, n.name), side)
+                    joined = m1 is not None and any(r.side == side for r in m1.sides)
+                    for rec in (self.np_inc.get((app, n.name)), self.mb_inc.get((app, n.mailbox))):
+                        if rec is not None and joined and side not in rec["admitted"] and len(rec["admitted"]) < 2:
+                            rec["admitted"].append(side)
+                    self._touch((app, n.mailbox), ev.wall, True)
         elif kind == "clock_jump":
             if (ev.notes.get("delta") or 0) < 0:
                 self.backward_jump = True
